@@ -27,3 +27,47 @@ func (v *Verif19Panel) Admit(uid []byte, sid uint32, cfg mux.SessionConfig) (*Ac
 func (v *Verif19Panel) CloseSession(u *ActiveUser, sid uint32) { u.CloseSession(sid, "") }
 
 func (v *Verif19Panel) IsActive(uid []byte) bool { return v.p.isActive(uid) }
+
+// ---- simultaneous first connections of one user (C19: ONE allowance per user) ----
+
+type verif19gate struct {
+	verif19manager
+	enter func()
+}
+
+func (m *verif19gate) AuthenticateUser(uid []byte) (int64, int64, error) {
+	if m.enter != nil {
+		m.enter()
+	}
+	return m.verif19manager.AuthenticateUser(uid)
+}
+
+// Verif19ConcurrentAdmit admits n connections of the same, not yet active, user at the same time (each with its own
+// session id), the way dispatchConnection does; `enter` is called inside every AuthenticateUser query (the harness uses
+// it to keep the queries overlapping when the code lets them overlap).  It returns the valve each connection ended up
+// limited by.
+func Verif19ConcurrentAdmit(upRate, downRate int64, uid []byte, ids []uint32, cfg func() mux.SessionConfig, enter func()) ([]mux.Valve, []error) {
+	panel := MakeUserPanel(&verif19gate{verif19manager{upRate, downRate}, enter})
+	valves := make([]mux.Valve, len(ids))
+	errs := make([]error, len(ids))
+	done := make(chan struct{}, len(ids))
+	for i, id := range ids {
+		go func(i int, id uint32) {
+			defer func() { done <- struct{}{} }()
+			u, err := panel.GetUser(uid)
+			if err != nil {
+				errs[i] = err
+				return
+			}
+			if _, _, err := u.GetSession(id, cfg()); err != nil {
+				errs[i] = err
+				return
+			}
+			valves[i] = u.valve
+		}(i, id)
+	}
+	for range ids {
+		<-done
+	}
+	return valves, errs
+}
